@@ -20,14 +20,14 @@ INFO = dict(
               'instant with FailedFastError; reconnect attempts are spaced by non-decreasing delays never above the configured maximum (60 s); '
               'a request issued at least one maximum retry interval after the endpoint became reachable is served by it; no connect attempt '
               'happens after the client was closed.',
-  bounds={'quick': 'one endpoint, back-off constants = builder defaults (5 s, x^1.2, max 60 s), unreachable for up to 40 s starting in [0, 20] s, 2 probe requests; client closed at a symbolic instant while down, also while a (slow) connect attempt is in flight',
+  bounds={'quick': 'one endpoint, back-off constants = builder defaults (5 s, x^1.2, max 60 s), unreachable for up to 40 s starting in [0, 20] s, 2 probe requests; client closed at a symbolic instant while down, also while a (slow) connect attempt is in flight; a server that hangs (established connections silent, new ones refused for a symbolic while) with a call timing out into the silence',
           'thorough': 'as quick with outages of up to 100 s, plus two endpoints in one aperture with two 25 s outages whose (symbolic) starts may overlap, under steady traffic'},
   outside=['symbolic back-off parameters (exponentiation is out of reach of SMT; the defaults are concrete)', 'several endpoints failing independently',
            'flapping (more than one unreachable interval)'],
   stubs=['as C01; connect outcome is a function of the virtual time of the attempt'],
   assumptions=['A1-A4'],
 )
-EXPECT_COVERS = ['T:closed-during-connect-attempt', 'M:closed-during-connect-attempt', 'T:down-at-first-connect', 'M:down-at-first-connect', 'T:dies-later', 'M:dies-later', 'T:fail-fast', 'M:fail-fast',
+EXPECT_COVERS = ['T:timed-out-into-silence', 'M:timed-out-into-silence', 'T:reconnect-refused-after-timeout', 'T:closed-during-connect-attempt', 'M:closed-during-connect-attempt', 'T:down-at-first-connect', 'M:down-at-first-connect', 'T:dies-later', 'M:dies-later', 'T:fail-fast', 'M:fail-fast',
                  'T:recovered', 'M:recovered', 'T:closed-while-down', 'M:closed-while-down']
 
 
@@ -37,6 +37,8 @@ def jobs(tier):
     js.append(dict(name='%s-outage' % k, stack=k, sc='outage', maxdur=40 if tier == 'quick' else 100, cost=3000, shards=16, shard_depth=4))
     js.append(dict(name='%s-close-while-down' % k, stack=k, sc='close', cost=500, shards=4, shard_depth=2))
     js.append(dict(name='%s-close-during-connect' % k, stack=k, sc='closeconn', cost=500, shards=4, shard_depth=2))
+  for k in ('T', 'M'):
+    js.append(dict(name='%s-hang' % k, stack=k, sc='hang', cost=1000, shards=8, shard_depth=4))
   if tier != 'quick':
     js.append(dict(name='M-two-endpoints-overlapping-outages', stack='M', sc='two', cost=50000, shards=64, shard_depth=6, max_seconds=5400))
   return js
@@ -88,8 +90,57 @@ def two_endpoints(job):
   return body
 
 
+def hang(job):
+  """the server process hangs at a symbolic instant: connections established before that stay up but are never answered
+  again, new connections are refused for a symbolic while, afterwards it accepts and answers again. A call issued into the
+  silence times out (the serial transport then tries to reconnect and is refused); one maximum retry interval after
+  the server is back it must be used again."""
+  k = job['stack']
+  def body():
+    e = stacks.setup()
+    u0 = fresh_real('hang_starts', 1, 20)
+    dur = fresh_real('refuses_for', 0, 40, lo_strict=True)
+    u1 = u0 + dur
+    t_base = vtime.now()
+    def plan(i, peer):
+      return ('never',) if bool(peer.born - t_base < u0) and bool(vtime.now() - t_base >= u0) else ('reply', 0)
+    script = netm.Script(plan=plan, ping_plan=plan)
+    def conn(kk, t):
+      rel = t - t_base
+      return 'refuse' if bool(sand(rel >= u0, rel < u1)) else 'ok'
+    def mkpeer(s_):
+      p = peer_cls(k)(s_, script); p.born = vtime.now(); return p
+    ep = e.net.endpoint('a', 1, peer=mkpeer, connect=conn, connect_delay=0)
+    c = client(k, 'tcp://a:1', 5, open_timeout=0)
+    p1 = fresh_real('call_into_silence_at', 0, 60)
+    assume(sand(p1 > u0, p1 < u1))
+    gevent.sleep(p1)
+    ar1 = c.hi_async('p1')
+    hdecide(p1 + 5 < u1)
+    # while the first call is still pending a second one may be issued (it may need a second connection)
+    gevent.sleep((u1 + MAXI + 1) - p1)
+    ev1 = stacks.events(ar1)
+    check('hang.call-into-silence-completes-once', len(ev1) == 1)
+    if ev1 and isinstance(ev1[0][2], ScalesTimeout): cover(k + ':timed-out-into-silence')
+    refused = [t for (kind, t, a, out) in e.net.log if kind == 'connect' and out == 'refuse']
+    if refused: cover(k + ':reconnect-refused-after-timeout')
+    ar2 = c.hi_async('p2')
+    gevent.sleep(10)
+    ev2 = stacks.events(ar2)
+    check('hang.probe-completes-once', len(ev2) == 1)
+    if ev2:
+      check('hang.served-after-recovery', ev2[0][1] == 'value' and ev2[0][2] == 'echo:p2')
+    attempts = [t - t_base for t in ep.attempts]
+    gaps = [attempts[i + 1] - attempts[i] for i in range(1, len(attempts) - 1)]
+    for g in gaps: check('hang.retry-gap-at-most-max', g <= MAXI)
+    check('no-greenlet-error', not vtime.ERRORS)
+    c.DispatcherClose()
+  return body
+
+
 def make_body(job):
   if job['sc'] == 'two': return two_endpoints(job)
+  if job['sc'] == 'hang': return hang(job)
   k = job['stack']; sc = job['sc']
   def body():
     e = stacks.setup()
